@@ -430,7 +430,7 @@ func ruleC12(c *Ctx, r *Report) {
 			for _, a := range p.atomsAt(s.Instr.Block()) {
 				if a.Kind == "inset" && a.Pol && p.Of(a.X)&oKEY != 0 {
 					have := map[string]bool{}
-					for _, m := range p.Tables.StringSets[a.Name] {
+					for _, m := range a.Set {
 						have[m] = true
 					}
 					if have["$out"] && have["$unionWith"] && have["$merge"] {
